@@ -19,10 +19,13 @@ PY = '/venv/bin/python'
 
 def siblings(name, own):
     pids = [c['property_id'] for c in json.load(open(os.path.join(VERIF, 'MANIFEST.json')))['checks'] if c['property_id'] != own]
-    wt = tempfile.mkdtemp(prefix=f'sweep_{name}_', dir='/tmp')
-    os.rmdir(wt)
-    subprocess.run(f'git -C /repo worktree add -q --detach {wt} {BASE} && git -C {wt} apply {VERIF}/seeded/{name}/patch.diff', shell=True, check=True)
+    sys.path.insert(0, os.path.join(VERIF, 'tools'))
+    import wt as _wt
+    wt, _info = _wt.make(os.path.join(VERIF, 'seeded', name), f'sweep_{name}')
     fired = []
+    if not _info['applies']:
+        _wt.remove(wt)
+        return fired
     try:
         def one(pid):
             outd = tempfile.mkdtemp(prefix='seedout_', dir='/tmp')
